@@ -9,12 +9,20 @@ NSLICES = 64
 
 TERM = r'''
 start = T*
-T = K2 | K1 | K0 | L
+T = K2 | K1 | K0 | L | Op
+Op = "(" >> OpE << ")"
+OpE = K0 between {
+    prefix: "-"
+    left: "+"
+}
 class K0 { pass "0" }
 class K1 { a: "1" >> T? }
 class K2 { a: "2" >> T; b: T }
 L = "[" >> T* << "]"
 '''
+
+
+OPSENTS = ['(0+0)', '(-0)', '1(0+0)', '2(0+-0)1', '[(0+0+0)]', '2(0)(-0+0)', '1(-0)0', '2[(0+0)]1(0)']
 
 
 def init():
@@ -67,7 +75,25 @@ def callbacks(g, log):
     def k0_to_none(n):
         rec('none', n)
         return None if isinstance(n, g.K0) else n
-    return [ident, k1_to_k2, k2_to_scalar, k1_to_list, wrap_k0, fresh_copy, own_meta, k0_to_none]
+
+    def unwrap(n):
+        # the replacement is a sub-tree of the INPUT (it may carry no metadata of its own)
+        rec('unwrap', n)
+        if isinstance(n, g.K1) and isinstance(n.a, PO):
+            return n.a
+        if isinstance(n, g.K2) and isinstance(n.b, PO):
+            return n.b
+        return n
+
+    def rewrite_plain(n):
+        # later callbacks also see what earlier ones made of a node when that is not a parsed object
+        rec('plain', n)
+        if isinstance(n, list):
+            return tuple(n)
+        if n == 7 and not isinstance(n, PO):
+            return 8
+        return n
+    return [ident, k1_to_k2, k2_to_scalar, k1_to_list, wrap_k0, fresh_copy, own_meta, k0_to_none, unwrap, rewrite_plain]
 
 
 def ref_transform(g, x, cbs):
@@ -86,15 +112,20 @@ def ref_transform(g, x, cbs):
         prev = node
         node = f(prev)
         if node is not prev and isinstance(prev, PO) and isinstance(node, PO) and not len(node._metadata):
+            # the replacement stands for prev: an equal object carrying prev's metadata (a copy: the
+            # replacement may belong to the input tree, which is never modified)
+            node = type(node)(**{f: getattr(node, f) for f in node._fields})
             node._metadata.update(prev._metadata)
     return node
 
 
-def check_tree(g, root, res, sigs, desc, maxlen):
+def check_tree(g, make, res, sigs, desc, maxlen):
+    """`make()` builds the tree afresh for every callback sequence (a modified input must not leak into the next run)"""
     ncb = len(callbacks(g, []))
-    before = ox.snapshot(g, root)
     for k in range(1, maxlen + 1):
         for combo in itertools.product(range(ncb), repeat=k):
+            root = make()
+            before = ox.snapshot(g, root)
             l1, l2 = [], []
             c1, c2 = callbacks(g, l1), callbacks(g, l2)
             res['ctr']['cases'] += 1
@@ -104,7 +135,9 @@ def check_tree(g, root, res, sigs, desc, maxlen):
             except Exception as x:
                 why = 'EXC:%s' % type(x).__name__
                 got = None
-            exp = ref_transform(g, root, [c2[i] for i in combo])
+            if why is None and ox.snapshot(g, root) != before:
+                why = 'input-modified'
+            exp = ref_transform(g, make(), [c2[i] for i in combo])
             res['ctr']['transitions'] += len(l2)
             se = ox.snapshot(g, exp)
             if se != before:
@@ -144,12 +177,15 @@ def graph_job(job, st):
     scripts = st[key]
     for idx in range(k, len(scripts), NSLICES):
         script = scripts[idx]
-        objs = ox.construct(script, g)
-        for i, o in enumerate(objs):
-            if ox.is_po(g, o):
-                o._metadata.position_info = ('fake', i)
+        def make(script=script, idx=idx):
+            objs = ox.construct(script, g)
+            for i, o in enumerate(objs):
+                # every third object carries no metadata (like Infix/Prefix/Postfix nodes of operator tables)
+                if ox.is_po(g, o) and (i + idx) % 3:
+                    o._metadata.position_info = ('fake', i)
+            return objs[-1]
         res['ctr']['states'] += 1
-        check_tree(g, objs[-1], res, sigs, {'script': [list(map(str, s)) for s in script]}, 2 if tier == 'thorough' or idx % 4 == 0 else 1)
+        check_tree(g, make, res, sigs, {'script': [list(map(str, s)) for s in script]}, 2 if tier == 'thorough' or idx % 4 == 0 else 1)
     res['sample'] = {'script': scripts[k] if k < len(scripts) else None, 'callback_menu': [f.__name__ for f in callbacks(g, [])]}
     return res
 
@@ -159,7 +195,7 @@ def parsed_job(job, st):
     g = st['t']
     res = {'ctr': {'cases': 0, 'nontrivial': 0, 'states': 0, 'transitions': 0}, 'sets': {}, 'viol': [], 'viol_keys': []}
     sigs = set()
-    sents = e1.strings('012[]', 5 if tier == 'quick' else 6, lo=1)
+    sents = e1.strings('012[]', 5 if tier == 'quick' else 6, lo=1) + OPSENTS
     for idx in range(k, len(sents), NSLICES):
         s = sents[idx]
         try:
@@ -169,7 +205,7 @@ def parsed_job(job, st):
                 continue
             raise
         res['ctr']['states'] += 1
-        check_tree(g, tree, res, sigs, {'term': s}, 2)
+        check_tree(g, lambda s=s: g.parse(s), res, sigs, {'term': s}, 2)
     res['sample'] = {'term_language_sentence': sents[k]}
     return res
 
@@ -182,9 +218,9 @@ def dispatch(job, st):
 
 def run(tier, seed):
     chk = Check('C16', tier, seed)
-    chk.rule = ('hand-built object DAGs with <=4 (thorough <=5) nodes (every object carries distinct metadata) and all parsed trees of '
+    chk.rule = ('hand-built object DAGs with <=4 (thorough <=5) nodes (two thirds of the objects carry distinct metadata, the rest none, like operator-table nodes) and all parsed trees of '
                 'a term language (sentences <=5/6 symbols, real position metadata) x all callback sequences of length 1..2 over a '
-                'menu of 8 callbacks (identity, K0->None, K1->K2 without metadata, K2->scalar, K1->list, wrap, fresh equal copy, replacement '
+                'menu of 10 callbacks (identity, K0->None, unwrap to an input sub-tree, rewrite of non-object results, K1->K2 without metadata, K2->scalar, K1->list, wrap, fresh equal copy, replacement '
                 'with own metadata); compared with a bottom-up reference: result incl. metadata of every node, call log '
                 '(argument snapshots in order), input unchanged; non-trivial = the transformation changes the tree')
     chk.assumptions = ['reference bottom-up rewrite in vf/props/c16.py; callbacks never mutate their argument and never raise']
@@ -209,6 +245,6 @@ def replay(rep):
             if ox.is_po(g, o):
                 o._metadata.position_info = ('fake', i)
         tree = objs[-1]
-    check_tree(g, tree, res, set(), case['tree'], 2)
+    check_tree(g, (lambda: tree), res, set(), case["tree"], 2)
     print(res['viol'][:1] or 'ok')
     return 1 if res['viol_keys'] else 0
